@@ -47,6 +47,8 @@ type Contract struct {
 	Props    []string
 	Arith    []string // modes to verify in: "bv", "int"
 	Requires []Clause
+	// Assumes: facts about the environment assumed at entry (not checked at call sites; listed in the evidence)
+	Assumes  []Clause
 	Ensures  []Clause
 	Assigns  []SExpr
 	// HasAssigns: an assigns clause was given (possibly empty = assigns nothing)
@@ -67,6 +69,7 @@ type Contract struct {
 	SafetyProps []string
 	FrameProps  []string
 	NoSafety    bool
+	WrapArith   bool // int mode: model wrap-around exactly instead of proving its absence
 }
 
 type GhostVar struct {
@@ -107,7 +110,7 @@ var clauseKeywords = map[string]bool{
 	"func": true, "ghost": true, "spec": true, "axiom": true, "arith": true, "requires": true, "ensures": true,
 	"assigns": true, "loop": true, "callsite": true, "trusted": true, "assumed": true, "inline": true, "pure": true,
 	"noreturn": true, "model": true, "safety": true, "case": true, "props": true, "assert": true, "verified-external": true,
-	"params": true, "endcase": true, "global": true, "abstracts": true, "lemma": true,
+	"params": true, "endcase": true, "global": true, "abstracts": true, "lemma": true, "assume": true, "overflow": true,
 }
 
 // LoadSpecs reads every contract source: //@ lines of zz_contracts_verif.go files
@@ -200,6 +203,11 @@ func (sp *Specs) loadFile(path string, goFile bool) error {
 		body = strings.TrimSpace(body)
 		if body == "" {
 			continue
+		}
+		if !goFile {
+			if i := strings.Index(body, "   # "); i >= 0 {
+				body = strings.TrimSpace(body[:i])
+			}
 		}
 		// strip trailing comment (// ...), not inside strings
 		if i := commentIndex(body); i >= 0 {
@@ -349,6 +357,14 @@ func (sp *Specs) loadFile(path string, goFile bool) error {
 				} else {
 					cur.Ensures = append(cur.Ensures, cl)
 				}
+			case "overflow":
+				cur.WrapArith = strings.TrimSpace(rest) == "wrap"
+			case "assume":
+				cl, err := parseClause(rest, src)
+				if err != nil {
+					return fail(err)
+				}
+				cur.Assumes = append(cur.Assumes, cl)
 			case "abstracts":
 				cl, err := parseClause(rest, src)
 				if err != nil {
